@@ -301,10 +301,11 @@ def main(run):
                 rec['dup_args'] = False
             recs.append(rec)
             run.case(('rand', k, len(files)))
-    if not quick:
-        # default read-piece size (16 MiB) and default chunker bounds: file sizes around the piece size
+    if True:
+        # default read-piece size (16 MiB) and default chunker bounds: file sizes around the piece size (code paths that depend on
+        # real sizes - thresholds, buffering, more than one read piece per file - are invisible at miniature scale)
         MiB = 1 << 20
-        for k, sizes in enumerate([[16 * MiB - 1, 100], [16 * MiB, 16 * MiB + 3, 0], [2 * 16 * MiB + 5, 7]]):
+        for k, sizes in enumerate([[16 * MiB + 3, 1_300_000, 0]] if quick else [[16 * MiB - 1, 100], [16 * MiB, 16 * MiB + 3, 0], [2 * 16 * MiB + 5, 7], [16 * MiB + 3, 1_300_000, 0]]):
             cfg = dict(enc=bool(k % 2), cipher=None, hashing=None, mn=128_000, mx=5_120_000, conc=3, piece=None)
             with harness.scratch() as d:
                 files = {'big%d.bin' % i: content(rng, n, 'rand' if i == 0 else 'rep') for i, n in enumerate(sizes)}
